@@ -15,4 +15,10 @@ CASES = [
      "edits": [(PU, "    if prog1 is prog2:\n        return True\n", "")]},
     {"id": "twin-length-first", "expect": "silent",
      "edits": [(P, "        if len(self.circuit) != len(prog.circuit):\n            return False\n", "        n_self, n_prog = len(self.circuit), len(prog.circuit)\n        if len(self.circuit) != len(prog.circuit):\n            return False\n")]},
+    {"id": "equiv-rtol-ignored", "expect": "fire", "key": "C18.param-used",
+     "edits": [(PU, 'p_match = np.allclose(n1["p"], n2["p"], atol=atol, rtol=rtol)', 'p_match = np.allclose(n1["p"], n2["p"], atol=atol)')]},
+    {"id": "twin-new-stub-with-unread-params", "expect": "silent",
+     "edits": [(PU, "def program_equivalence(", "def _future_hook(prog, options):\n    raise NotImplementedError\n\n\ndef program_equivalence(")]},
+    {"id": "new-function-ignores-argument", "expect": "fire", "key": "C18.param-used",
+     "edits": [(PU, "def program_equivalence(", "def _circuit_len(prog, other):\n    return len(prog.circuit)\n\n\ndef program_equivalence(")]},
 ]
